@@ -440,6 +440,14 @@ impl<'tcx> Cx<'tcx> {
                 if let ty::FnDef(..) = ty.kind() {
                     return obj! {"k" => s("const"), "ty" => tyj, "fn" => J::B(true)};
                 }
+                // a pointer constant into a `static` item: name the static (address-of a process-wide object)
+                if let ConstValue::Scalar(Scalar::Ptr(p, _)) = cv {
+                    let (prov, _off) = p.prov_and_relative_offset();
+                    if let GlobalAlloc::Static(did) = tcx.global_alloc(prov.alloc_id()) {
+                        return obj! {"k" => s("const"), "ty" => tyj, "val" => self.constvalue_j(cv, ty),
+                                     "static" => s(self.path(did)), "static_mut" => J::B(tcx.is_mutable_static(did))};
+                    }
+                }
                 obj! {"k" => s("const"), "ty" => tyj, "val" => self.constvalue_j(cv, ty)}
             }
         }
